@@ -4,9 +4,11 @@ import CookModel.Side.StdMeta
   canonical name of a standard key up, then apply the `CooklangValueExt` accessor of
   Side/StdMeta.lean.  `Metadata::time` combines three keys.
 
-  ADDED BY THE CLAUSE AUDIT (notes/audit-C13.md): these definitions are not yet tied to the code by
-  a driver operation (the harness checks `Metadata::time` against the documentation with its own
-  oracle, signature `c13:metadata-time-precedence`).
+  ADDED BY THE CLAUSE AUDIT (notes/audit-C13.md).  Tied to the code by the driver operation
+  `sm_metadata` (Driver/Tie.lean): harness/src/props/c13.rs compares every accessor with the real
+  `Metadata` accessors on the metadata map of parsed recipes (`entry`, `time_precedence_cases`); the
+  harness also checks `Metadata::time` against the documentation with its own oracle, signature
+  `c13:metadata-time-precedence`.
 -/
 namespace Cook.SM
 open Cook
